@@ -142,10 +142,18 @@ class Formatter(FormatterInterface):
         lhs = self(oper.lhs)
         rhs = self(oper.rhs)
 
-        # Apply parentheses
-        if oper.lhs.precedence >= oper.precedence:
+        # Apply parentheses. Python chains comparisons (a < b == c means
+        # a < b and b == c), so a comparison operand of a comparison is
+        # always parenthesised.
+        comparisons = (L.EQ, L.NE, L.LT, L.GT, L.LE, L.GE)
+        is_comparison = isinstance(oper, comparisons)
+        if oper.lhs.precedence >= oper.precedence or (
+            is_comparison and isinstance(oper.lhs, comparisons)
+        ):
             lhs = f"({lhs})"
-        if oper.rhs.precedence >= oper.precedence:
+        if oper.rhs.precedence >= oper.precedence or (
+            is_comparison and isinstance(oper.rhs, comparisons)
+        ):
             rhs = f"({rhs})"
 
         # Return combined string
@@ -156,6 +164,10 @@ class Formatter(FormatterInterface):
     def _(self, oper: L.Not | L.Neg) -> str:
         """Format a unary operation."""
         arg = self(oper.arg)
+        if isinstance(oper, L.Not):
+            # Python spells logical negation 'not', which binds more loosely
+            # than comparisons: parenthesise both the operand and the result
+            return f"(not ({arg}))"
         if oper.arg.precedence >= oper.precedence:
             return f"{oper.op}({arg})"
         return f"{oper.op}{arg}"
